@@ -312,6 +312,20 @@ def db_ops(ir):
                     out[n] = c
             return out
         ops.append((f"merge({strat})", f, o))
+    # merging SEVERAL boxes at once: a name new to the receiver that occurs in two of them is a duplicate as well
+    for strat in ("replace", "discard"):
+        def f(db, other, strat=strat):
+            b = other.copy(); b.keep(["z"]); b.rename(["z"], ["n1"])
+            c = other.copy(); c.keep(["a", "b"]); c.rename(["a"], ["n1"])
+            db.merge([b, c], merge_strategy=strat)
+            return db
+        def o(c1, c2, strat=strat):
+            out = dict(c1)
+            out["n1"] = c2["a"] if strat == "replace" else c2["z"]
+            if strat == "replace":
+                out["b"] = c2["b"]
+            return out
+        ops.append((f"merge([b, c], {strat})", f, o))
     def f(db, other):
         return db | other
     ops.append(("db | other", f, lambda c1, c2: {**c1, **c2}))
